@@ -25,26 +25,29 @@ theorem verifySignatures_ok_iff (H : Bytes → Bytes) (cs : ClientState) (data :
   cases sigs with
   | nil => simp
   | cons σ rest =>
-    by_cases hq : (σ :: rest).length < cs.minSigs
-    · have : ¬ cs.minSigs ≤ (σ :: rest).length := by omega
-      simp [hq, this]
-    · have hq' : cs.minSigs ≤ (σ :: rest).length := by omega
-      simp only [List.length_cons, beq_iff_eq, Nat.add_eq_zero_iff, Nat.succ_ne_self, and_false,
-        if_false, ne_eq, reduceCtorEq, not_false_eq_true, true_and]
-      simp only [List.length_cons] at hq hq'
-      simp only [hq, if_false, hq', true_and]
-      have hl := sigLoop_ok_iff cs.attestors (tagged H ty data) (σ :: rest) []
+    have hl := sigLoop_ok_iff cs.attestors (tagged H ty data) (σ :: rest) []
+    simp only [List.length_cons, beq_iff_eq, Nat.add_one_ne_zero, if_false, ne_eq, reduceCtorEq,
+      not_false_eq_true, true_and]
+    by_cases hq : rest.length + 1 < cs.minSigs
+    · simp only [hq, if_true]
+      constructor
+      · intro h; cases h
+      · rintro ⟨h, _⟩; omega
+    · simp only [hq, if_false]
       cases hs : sigLoop cs.attestors (tagged H ty data) (σ :: rest) [] with
       | error e =>
         rw [hs] at hl
-        simp only [reduceCtorEq, false_iff, not_exists, not_and]
-        intro signers h1 h2 h3
-        exact (hl.mpr ⟨signers, h1, fun a ha => ⟨h2 a ha, by simp⟩, h3⟩).elim
+        constructor
+        · intro h; cases h
+        · rintro ⟨_, signers, h1, h2, h3⟩
+          cases (hl.mpr ⟨signers, h1, fun a ha => ⟨h2 a ha, by simp⟩, h3⟩)
       | ok u =>
         rw [hs] at hl
-        simp only [true_iff]
-        obtain ⟨signers, h1, h2, h3⟩ := hl.mp rfl
-        exact ⟨signers, h1, fun a ha => (h2 a ha).1, h3⟩
+        constructor
+        · intro _
+          obtain ⟨signers, h1, h2, h3⟩ := hl.mp rfl
+          exact ⟨by omega, signers, h1, fun a ha => (h2 a ha).1, h3⟩
+        · intro _; rfl
 
 /-- Every accepted signature is 65 bytes long and recovers, under the tagged hash of exactly this data,
 to a configured attestor. -/
@@ -85,7 +88,7 @@ theorem duplicate_signer_rejected (H : Bytes → Bytes) (cs : ClientState) (data
     simp only [List.append_assoc, List.cons_append, List.filterMap_append, List.filterMap_cons,
       List.count_append, List.count_cons_self]
     omega
-  have := List.nodup_iff_count_le_one.mp hnd a
+  have := List.nodup_iff_count.mp hnd a
   omega
 
 /-- `tagged` is injective in (type, data) up to an explicit SHA-256 collision. -/
@@ -239,7 +242,7 @@ theorem freeze_only_on_conflict (H keccak : Bytes → Bytes) (s : State) (msg : 
           · have : (ts != nanos secs) = false := by simpa using hd
             simp [step, hact, verifyClientMessage, hsig, checkForMisbehaviour, hdec, hst, this,
               updateState] at hfr
-          · exact ⟨pr, h, secs, ts, rfl, rfl, hdec, hst, hd⟩
+          · exact ⟨pr, h, secs, ts, rfl, hsig, hdec, hst, hd⟩
 
 /-- An update is accepted only with a state-type quorum; when it neither conflicts nor panics it stores
 the attested timestamp at (0, height) and raises the latest height monotonically. -/
@@ -256,7 +259,7 @@ theorem update_accepted_only_with_quorum (H keccak : Bytes → Bytes) (s : State
     | some pr =>
       cases hsig : verifySignatures H s.cs pr.data pr.sigs tagState with
       | error e => simp [step, hf, verifyClientMessage, hsig] at hok
-      | ok u => exact ⟨pr, rfl, rfl⟩
+      | ok u => exact ⟨pr, rfl, hsig⟩
 
 /-- **A frozen client accepts nothing**: every operation returns an error and leaves the state unchanged. -/
 theorem frozen_accepts_nothing (H keccak : Bytes → Bytes) (s : State) (op : Op)
@@ -317,7 +320,9 @@ theorem conflicting_seconds_freeze_partial
   have hne' : (nanos secs != nanos secs') = true := by simpa using hn
   have hget : Cons.get (Cons.set s.cons (0, h) (nanos secs)) (0, h) = some (nanos secs) := by
     simp [Cons.get, Cons.set, List.lookup]
-  simp [run, step, hact, verifyClientMessage, hsig, hsig', checkForMisbehaviour, hdec, hdec', hfresh,
+  have hsig'' : ∀ l f, verifySignatures H { s.cs with latest := l, frozen := f } pr'.data pr'.sigs tagState
+      = .ok () := fun _ _ => hsig'
+  simp [run, step, hact, verifyClientMessage, hsig, hsig'', checkForMisbehaviour, hdec, hdec', hfresh,
     updateState, hget, hne', freeze]
 
 /-- **The full statement is false of the code**: `timestampSeconds * nanosPerSecond` wraps in uint64, so
@@ -331,7 +336,7 @@ theorem conflicting_seconds_freeze_full_false : ¬ conflicting_seconds_freeze_fu
   let pr : Proof := ⟨[], [Sig.signed 7 (tagged H tagState [])], some (5, 1), none⟩
   let pr' : Proof := ⟨[1], [Sig.signed 7 (tagged H tagState [1])], some (5, 1 + 2 ^ 55), none⟩
   have := hfull H H s pr pr' 5 1 (1 + 2 ^ 55) (by decide) (by decide) (by decide) rfl rfl rfl rfl
-    (by decide) (by decide)
+    rfl rfl
   revert this
   decide
 
@@ -350,7 +355,7 @@ example :
       = .error .unknownSigner ∧
     verifySignatures H cs [9] [.signed 10 d, .malformed 64] tagState = .error .invalidSignature ∧
     verifySignatures H cs [9] [.signed 10 d] tagState = .error .invalidQuorum ∧
-    verifySignatures H cs [9] [] tagState = .error .invalidSignature := by
-  decide
+    verifySignatures H cs [9] [] tagState = .error .invalidSignature :=
+  ⟨rfl, rfl, rfl, rfl, rfl, rfl, rfl⟩
 
 end IbcVerif.C28
